@@ -189,7 +189,7 @@ def plain_capable(g, d):
         if dd.kind != "alias":
             return False
         t = dd.alias
-    return t["type"] == "primitive" and t["primitive"] not in ("ANY", "BINARY")
+    return t["type"] == "primitive" and t["primitive"] != "ANY"
 
 
 def c10_labs(tier, seed):
@@ -482,7 +482,16 @@ def typed_labs(tier, seed, tag, errors=0):
     for i in range(n):
         cs = rr.getrandbits(48)
         cfg = {"exhaustive": i % 2 == 1, "serialize_empty": rr.random() < 0.5, "strip": rr.choice([None, "com.verif", "com.verif.lab"])}
-        g = LabGen(cs, Profile(n_types=40 if tier == "quick" else 60, services=0, errors=errors, hostile_names=True))
+        g = LabGen(cs, Profile(n_types=40 if tier == "quick" else 60, services=0, errors=errors, hostile_names=True, plain_aliases=(tag == "plain")))
+        if tag == "laws":
+            # the laws are about types that contain doubles: redraw (deterministically) until the definition has enough of them
+            def doubles(gg):
+                return sum(1 for d in gg.types if d.kind != "enum" and contains_double(gg, d.ref()))
+            tries = 0
+            while doubles(g) < 10 and tries < 30:
+                cs = rr.getrandbits(48)
+                g = LabGen(cs, Profile(n_types=40 if tier == "quick" else 60, services=0, errors=errors, hostile_names=True))
+                tries += 1
         labs.append((cs, cfg, g))
     specs = []
     for i, (cs, cfg, g) in enumerate(labs):
@@ -541,6 +550,11 @@ def plain_stage(prop, tier, seed, replay):
                 want = "NaN"
             elif u[0] == "dbl" and u[1] in (float("inf"), float("-inf")):
                 want = "Infinity" if u[1] > 0 else "-Infinity"
+            elif u[0] == "bin":
+                import base64
+                want = base64.b64encode(u[1]).decode()
+            elif u[0] == "time" and text is not None and wire.parse_time(text) != tuple(u[1]):
+                want = "<an RFC 3339 datetime denoting %s>" % (u[1],)
             if want is not None and text != want:
                 rep["violations"].append(violation("lab-plain", cs, "generated:%s:plain-spelling:%s" % (d.kind, u[0]), det))
             if len(rep["samples"]) < 2:
@@ -698,7 +712,12 @@ def errors_stage(prop, tier, seed, replay):
                 elif kind == "dbl":
                     x = u[1]
                     if math.isnan(x) or math.isinf(x):
-                        ok = True      # non-finite: observed-only
+                        # whatever the spelling (Rust's or Conjure's), it parses back to the same number
+                        try:
+                            back = float(got)
+                            ok = (math.isnan(back) and math.isnan(x)) or back == x
+                        except ValueError:
+                            ok = False
                     else:
                         try:
                             ok = float(got) == x
@@ -1324,6 +1343,12 @@ def body_case(wire, c, r, v, t, limit):
     """One request body for value v of type t: (text, class, valid?)."""
     canon = wire.render(c, v, t, wire.Style())
     top_absent = wire.unalias(v)[0] == "opt" and wire.unalias(v)[1] is None     # renders as `null`
+    if limit <= 2000 and r.random() < 0.3:
+        # a valid document padded with leading whitespace to limit-1 .. limit+2 bytes
+        target = limit + r.choice([-1, 0, 0, 1, 1, 2])
+        pad = target - len(canon.encode("utf-8"))
+        if pad >= 0:
+            return " " * pad + canon, "padded-to-limit%+d" % (target - limit), True
     k = r.random()
     if k < 0.22:
         return canon, "canonical", True
@@ -1343,17 +1368,41 @@ def body_case(wire, c, r, v, t, limit):
         return r.choice(["", " ", "\n"]), "empty", False
     if k < 0.78:
         return r.choice(["{", "[1,", "nul", "tru", "\"abc", "{\"a\":}", "[1 2]", "{'a':1}", "01", "+1", "\xff\xfe", "NaN", "[", "]", ":)\n"]), "malformed", False
-    if k < 0.86 and limit <= 2000:
-        target = limit + r.choice([-1, 0, 0, 1, 1, 2])
-        pad = target - len(canon.encode("utf-8"))
-        if pad >= 0:
-            return " " * pad + canon, "padded-to-limit%+d" % (target - limit), True
-        return canon, "canonical", True
     sites = list(wire.fault_sites(c, v, t))
     if not sites or top_absent:
         return canon, "canonical", True
     path, kind, payload, cls = r.choice(sites)
     return wire.render(c, v, t, wire.Style(), (path, kind, payload)), "fault/" + cls, False
+
+
+def force_small_limits(wire, g, ir):
+    """Every bodies lab has small size limits on (up to) two endpoints with an optional and two with a required
+    serializable body: the tag is rewritten in the IR before generation."""
+    c = wire.Ctx(g, random.Random(0))
+    BIN = {"type": "primitive", "primitive": "BINARY"}
+    quota = {True: ["100b", "2kb"], False: ["2kb", "100b"]}
+    def serializable_bodies():
+        for s in ir["services"]:
+            for e in s["endpoints"]:
+                bodies = [a for a in e["args"] if a["paramType"]["type"] == "body"]
+                if not bodies:
+                    continue
+                bt = wire.dealias(c, bodies[0]["type"])
+                optional = bt["type"] == "optional"
+                if bt == BIN or (optional and wire.dealias(c, bt["optional"]["itemType"]) == BIN):
+                    continue
+                yield e, bodies[0], optional
+    found = list(serializable_bodies())
+    if not any(o for _, _, o in found):
+        # (not a collection: the call dispatchers written by `genrun drive` do not marshal optional slices)
+        required = [(e, a) for e, a, o in found if not o and wire.dealias(c, a["type"])["type"] in ("primitive", "reference")]
+        if len(required) >= 2:
+            # no endpoint with an optional body was drawn: make the last required body optional
+            e, a = required[-1]
+            a["type"] = {"type": "optional", "optional": {"itemType": a["type"]}}
+    for e, a, optional in list(serializable_bodies()):
+        if quota[optional]:
+            e["tags"] = [t for t in e.get("tags", []) if not t.startswith("server-limit-request-size:")] + ["server-limit-request-size: " + quota[optional].pop(0)]
 
 
 def bodies_stage(prop, tier, seed, replay):
@@ -1368,8 +1417,9 @@ def bodies_stage(prop, tier, seed, replay):
     for i in range(n):
         cs = rr.getrandbits(48)
         cfg = {"exhaustive": i % 2 == 1, "serialize_empty": rr.random() < 0.5, "strip": rr.choice([None, "com.verif", "com.verif.lab"])}
-        g = LabGen(cs, Profile(n_types=25, services=3, errors=0, hostile_names=True, body_bias=True))
+        g = LabGen(cs, Profile(n_types=25, services=3, errors=0, hostile_names=True, body_bias=True, limit_bias=0.5))
         ir = g.ir()
+        force_small_limits(wire, g, ir)
         labs.append((cs, cfg, g, ir))
         specs.append({"name": "body%d" % i, "ir": ir, "cfg": cfg, "drive": True, "driver": lab.driver_source(ir, cfg, registry=False, services=True)})
     res = lab.build_labs("body-%s" % tier, specs)
@@ -1396,7 +1446,7 @@ def bodies_stage(prop, tier, seed, replay):
                     continue        # streaming binary bodies are not "serializable request bodies"
                 optional = bt["type"] == "optional"
                 limit = endpoint_limit(e)
-                for k in range(10 if tier == "quick" else 40):
+                for k in range(30 if tier == "quick" else 120):
                     vals = gen_args(wire, c, e, orig_scalar)
                     if vals is None:
                         continue
@@ -1475,7 +1525,211 @@ def bodies_stage(prop, tier, seed, replay):
                                        "stream_error_at": fail_at, "code": result["err"]})
     rep["distinct"] = sorted(distinct)
     if not replay:
-        rep["floors"]["lab-body-classes"] = [8, len([k for k in rep["matrix"] if k.startswith("lab-body/")])]
+        rep["floors"]["lab-body-classes"] = [9, len([k for k in rep["matrix"] if k.startswith("lab-body/")])]
         rep["floors"]["lab-content-type-classes"] = [6, len([k for k in rep["matrix"] if k.startswith("lab-content-type/")])]
+    rep["violations"] = rep["violations"][:100]
+    return rep
+
+
+def responses_stage(prop, tier, seed, replay):
+    """C18 lab half: generated clients of random services are handed canned responses (status, Content-Type, body, random
+    chunking, stream error) by the transport; reference decision by construction."""
+    import wire
+    from gen import LabGen, Profile
+    build(["genrun"])
+    rr = random.Random(seed * 4001 + 18)
+    n = 3 if tier == "quick" else 12
+    labs, specs = [], []
+    for i in range(n):
+        cs = rr.getrandbits(48)
+        cfg = {"exhaustive": i % 2 == 1, "serialize_empty": rr.random() < 0.5, "strip": rr.choice([None, "com.verif", "com.verif.lab"])}
+        g = LabGen(cs, Profile(n_types=25, services=3, errors=0, hostile_names=True))
+        ir = g.ir()
+        labs.append((cs, cfg, g, ir))
+        specs.append({"name": "resp%d" % i, "ir": ir, "cfg": cfg, "drive": True, "driver": lab.driver_source(ir, cfg, registry=False, services=True)})
+    res = lab.build_labs("resp-%s" % tier, specs)
+    rep = empty_report(prop)
+    distinct = set()
+    orig_scalar = wire.gen_scalar
+    BIN = {"type": "primitive", "primitive": "BINARY"}
+    JSON_DOCS = ["null", "1", "\"x\"", "[]", "{}", "[1,{\"a\":null}]", "{\"a\":{\"b\":[true,false]}}", " 7 ", "-0.5e3", "\"\\u00e9\""]
+    BAD_DOCS = ["", " ", "{", "[1,", "nul", "\"abc", "{\"a\":}", "1 2", "[]x", "{} {}", "\xff\xfe", "NaN", "]", "01"]
+    for i, (cs, cfg, g, ir) in enumerate(labs):
+        name = "resp%d" % i
+        if res.gen.get(name, {}).get("status") != "ok" or not res.compiled.get(name):
+            raise Inconclusive("service lab %s did not build: %s %s" % (name, res.gen.get(name), res.errors.get(name)))
+        r = random.Random(cs ^ 0xC18)
+        c = wire.Ctx(g, r, cfg["exhaustive"], cfg["serialize_empty"])
+        cases, info = [], {}
+        for s in ir["services"]:
+            sn = s["serviceName"]["name"]
+            for e in s["endpoints"]:
+                rt_ = e.get("returns")
+                if rt_ is None:
+                    rclass = "unit"
+                else:
+                    d = wire.dealias(c, rt_)
+                    if d == BIN:
+                        rclass = "binary"
+                    elif d["type"] == "optional" and wire.dealias(c, d["optional"]["itemType"]) == BIN:
+                        rclass = "optional-binary"
+                    elif d["type"] == "optional":
+                        rclass = "optional"
+                    elif d["type"] in ("list", "set", "map"):
+                        rclass = d["type"]
+                    else:
+                        rclass = "value"
+                binary = rclass in ("binary", "optional-binary")
+                requested = "application/octet-stream" if binary else "application/json"
+                for k in range(20 if tier == "quick" else 80):
+                    vals = gen_args(wire, c, e, orig_scalar)
+                    if vals is None:
+                        continue
+                    args, ok = {}, True
+                    for a in e["args"]:
+                        v, kind = vals[a["argName"]], a["paramType"]["type"]
+                        u = wire.unalias(v)
+                        if u[0] == "bin" and kind == "body":
+                            args[rust_arg_name(a["argName"])] = json.dumps("hex:" + u[1].hex())
+                        elif u[0] == "opt" and u[1] is not None and wire.unalias(u[1])[0] == "bin" and kind == "body":
+                            ok = False
+                            break
+                        else:
+                            args[rust_arg_name(a["argName"])] = wire.render(c, v, a["type"], wire.Style())
+                    if not ok:
+                        continue
+                    if e.get("auth"):
+                        args["auth_"] = json.dumps("tok.en")
+                    # ---- the canned response
+                    status = 204 if r.random() < 0.15 else 200
+                    k2 = r.random()
+                    if k2 < 0.7:
+                        ct, ctcls = requested, "requested"
+                    elif k2 < 0.78:
+                        ct, ctcls = None, "absent"
+                    elif k2 < 0.86:
+                        ct, ctcls = ("application/json" if binary else "application/octet-stream"), "the-other-conjure-type"
+                    elif k2 < 0.93:
+                        ct, ctcls = r.choice(["text/plain", "application/x-jackson-smile", "application/cbor", "text/html", "garbage", ""]), "unrelated"
+                    else:
+                        ct, ctcls = requested + r.choice(["; charset=utf-8", ";q=1", " "]) if r.random() < 0.7 else requested.upper(), "spelled-differently(observed-only)"
+                    want, wanted = None, None      # want: None = error expected; wanted: the value (for comparison)
+                    if status == 204:
+                        data, bcls = b"", "empty-204"
+                    elif binary:
+                        data = bytes(r.getrandbits(8) for _ in range(r.choice([0, 1, 2, 7, 40, 300])))
+                        bcls = "bytes"
+                    elif rclass == "unit":
+                        if r.random() < 0.6:
+                            data, bcls, valid = r.choice(JSON_DOCS).encode(), "any-json", True
+                        else:
+                            t = r.choice(BAD_DOCS)
+                            data, bcls, valid = (b"\xff\xfe" if t == "\xff\xfe" else t.encode()), "malformed", False
+                    else:
+                        try:
+                            rv = wire.gen_value(c, rt_)
+                        except wire.NoValue:
+                            continue
+                        text, bcls, valid = body_case(wire, c, r, rv, rt_, DEFAULT_LIMIT)
+                        if bcls == "fault/unknown-member":
+                            valid = True           # clients tolerate unknown object fields
+                        data = b"\xff\xfe" if text == "\xff\xfe" else text.encode("utf-8")
+                        wanted = rv
+                    fail_at = r.choice([0, 0, 1, 2, 3, 50]) if r.random() < 0.12 else None
+                    # ---- reference decision
+                    decided = True
+                    if status == 204 and rclass in ("unit", "optional", "list", "set", "map", "optional-binary"):
+                        expect = "empty"
+                    elif ctcls.endswith("(observed-only)"):
+                        decided, expect = False, None
+                    elif ctcls != "requested" or fail_at is not None:
+                        expect = "error"
+                    elif binary:
+                        expect = "bytes"
+                    elif status == 204:
+                        expect = "error"           # an empty body is not a document of a type that has no empty value
+                    else:
+                        expect = "value" if valid else "error"
+                    headers = [("content-type", ct)] if ct is not None else []
+                    if r.random() < 0.3:
+                        headers.append(("x-other", "1"))
+                    for flavour in ("sync", "async"):
+                        cid = len(cases) + 1
+                        cases.append({"id": cid, "ty": "%s/%s" % (sn, flavour), "op": "call", "method": lab.snake(e["endpointName"]), "args": args, "script": {},
+                                      "canned_status": status, "headers": headers, "body": data.decode("latin-1"), "fail_at": fail_at})
+                        info[cid] = (sn, e, flavour, rclass, status, ctcls, bcls, fail_at, decided, expect, wanted, data)
+        results = lab.run_lab(res, name, cases)
+        if "__crash__" in results:
+            rep["violations"].append(violation("lab-responses", cs, "lab-crashed", {"crash": results["__crash__"]}))
+            continue
+        twins = {}
+        for cid, (sn, e, flavour, rclass, status, ctcls, bcls, fail_at, decided, expect, wanted, data) in info.items():
+            out = results.get(cid) or {}
+            rep["evaluations"] += 1
+            nchunks = out.get("routes_matched", 0)
+            chunk_class = str(nchunks) if nchunks < 3 else "3+"
+            for cell in ("lab-return/%s/%s" % (rclass, flavour), "lab-response-body/%s" % bcls.split("/")[0], "lab-response-content-type/%s" % ctcls, "lab-response-chunks/%s/%s" % (flavour, chunk_class)) + \
+                    (("lab-response-stream-error/%s/%s" % (flavour, chunk_class),) if fail_at is not None else ()):
+                rep["matrix"][cell] = rep["matrix"].get(cell, 0) + 1
+            distinct.add(fnv("%s|%s|%s|%s|%s|%s|%s" % (flavour, rclass, status, ctcls, bcls, chunk_class, fail_at is not None)))
+            det = {"service": sn, "endpoint": e["endpointName"], "flavour": flavour, "return_class": rclass, "status": status, "content_type_class": ctcls, "body_class": bcls,
+                   "body": data[:300].decode("latin-1"), "stream_error_at": fail_at, "chunks": nchunks, "expected": expect, "observed": json.dumps(out)[:600]}
+            def fail(sig):
+                rep["violations"].append(violation("lab-responses", cs, "generated-client:%s:%s" % (flavour, sig), det))
+            result = out.get("result", {})
+            if "panic" in result or "harness_error" in out:
+                fail("panic:" + rclass)
+                continue
+            if str(result.get("cause", "")).startswith("harness:") or str(result.get("cause", "")).startswith(("verif:", "verif-transport")):
+                raise Inconclusive("harness error in the responses lab: %s" % json.dumps(out)[:400])
+            got_ok = "ok" in result
+            twins.setdefault(cid - (1 if flavour == "async" else 0), []).append(("ok:" + result["ok"]) if got_ok else "err")
+            if not decided:
+                rep["observed_only"]["content-type-spelling"] = rep["observed_only"].get("content-type-spelling", 0) + 1
+                continue
+            if expect == "error":
+                if got_ok:
+                    why = "content-type:" + ctcls if ctcls != "requested" else ("stream-error" if fail_at is not None else ("204-for-non-empty-type" if status == 204 else bcls))
+                    fail("value-from-bad-response:%s:%s" % (rclass, why))
+                continue
+            if not got_ok:
+                fail("rejected-valid-response:%s:%s" % (rclass, bcls.split("/")[0]))
+                continue
+            txt = result["ok"]
+            try:
+                if expect == "empty":
+                    if rclass == "optional-binary":
+                        if txt != "<absent>":
+                            raise wire.Mismatch("204 did not yield the absent optional: " + txt[:60])
+                    else:
+                        emp = strict_loads(txt)
+                        want_emp = {"unit": None, "optional": None, "list": [], "set": [], "map": {}}[rclass]
+                        if emp != want_emp:
+                            raise wire.Mismatch("204 yielded %s" % txt[:80])
+                elif expect == "bytes":
+                    if txt != "hex:" + data.hex():
+                        raise wire.Mismatch("bytes differ: %s" % txt[:80])
+                elif rclass == "unit":
+                    if txt != "null":
+                        raise wire.Mismatch("unit rendered as " + txt[:40])
+                else:
+                    wire.check(c, wanted, e["returns"], strict_loads(txt))
+            except (wire.Mismatch, ValueError) as ex:
+                det["mismatch"] = str(ex)[:300]
+                fail("wrong-value:%s:%s" % (rclass, bcls.split("/")[0]))
+                continue
+            if len(rep["samples"]) < 3 and bcls not in ("canonical", "bytes"):
+                rep["samples"].append({"sub": "lab-responses", "case_seed": cs, "endpoint": e["endpointName"], "return_class": rclass, "status": status, "body_class": bcls, "content_type": ctcls,
+                                       "chunks": nchunks, "stream_error_at": fail_at, "returned": txt[:120]})
+        # the duplicated blocking / async decoding paths must agree (same response bytes; the chunkings differ)
+        for cid, pair in twins.items():
+            if len(pair) == 2 and pair[0] != pair[1] and not (pair[0].startswith("ok:") and pair[1].startswith("ok:")):
+                sn, e = info[cid][0], info[cid][1]
+                rep["violations"].append(violation("lab-responses", cs, "generated-client:twins-disagree:%s" % info[cid][3],
+                                                   {"service": sn, "endpoint": e["endpointName"], "blocking": pair[0][:200], "async": pair[1][:200], "body_class": info[cid][6], "content_type_class": info[cid][5]}))
+    rep["distinct"] = sorted(distinct)
+    if not replay:
+        rep["floors"]["lab-return-classes"] = [8, len([k for k in rep["matrix"] if k.startswith("lab-return/")])]
+        rep["floors"]["lab-response-body-classes"] = [8, len([k for k in rep["matrix"] if k.startswith("lab-response-body/")])]
     rep["violations"] = rep["violations"][:100]
     return rep
